@@ -20,7 +20,7 @@ RULE = ("Fixed fault list, fully enumerated in both tiers: every fault is inject
         "raising PermissionError / EIO (root cannot be denied by chmod); objdump absent from PATH; fake objdump exiting 1 / "
         "killed by a signal / printing garbage then exiting 2; subprocess.run failpoint raising OSError; truncated and garbled "
         "YAML; pattern missing / null / scalar / empty; config null / list / scalar; non-boolean full-match flags; sections "
-        "scalar / list of ints; empty $or/$and/$and_any_order; $not with 0 and 2 arguments; $deref without main_reg; times "
+        "scalar / list of ints; empty $or/$and/$and_any_order; $not with 0 and 2 arguments; $deref without main_reg / with an empty field list / empty body; times "
         "negative (int and min/max, both spellings), inverted, non-numeric; undefined macro (with and without definitions in "
         "play); macro name without '@'; macros not a list. Outcome error = held; found = tolerated (shown, not judged); "
         "'not found' (False / [] / exit 0 + 'Pattern not found') = violation. Trace rule (hook H3 on regex.search/finditer "
@@ -130,6 +130,9 @@ def rule_faults():
     f("not-zero-args", append({"$not": []}))
     f("not-two-args", append({"$not": ["zz", "yy"]}))
     f("deref-without-main-reg", append({"zz": [{"$deref": {"constant_offset": "0x8"}}]}))
+    f("deref-field-empty-list", append({"zz": [{"$deref": {"main_reg": [], "constant_offset": "0x8"}}]}))
+    f("deref-empty-body", append({"zz": [{"$deref": {}}]}))
+    f("operand-list-item-null", append({"zz": [None]}))
     f("times-negative-int", lambda doc: _first_item_times(doc, -1, False))
     f("times-negative-int-sibling", lambda doc: _first_item_times(doc, -2, True))
     f("times-negative-min", lambda doc: _first_item_times(doc, {"min": -1, "max": 2}, False))
